@@ -21,7 +21,9 @@ SPEC = {
     'property': 'C18',
     'functions_of_interest': ['SimpleStringInternalCache', 'SimpleStringCacheAllocator', 'GlobalSimpleStringCache'],
     'assumptions': [
-        'underlying allocator = recording allocator of the harness serving whole 1032-byte slots of a static arena first-fit (a returned block is handed out again at once); the ledger flags foreign / repeated / wrong-size returns',
+        'underlying allocator = recording allocator of the harness: requests up to 16 bytes from a pool of 16-byte blocks, larger ones (up to 1032 bytes) from an arena of slots, both first-fit (a returned block is handed out again at once); the ledger flags foreign / repeated / wrong-size returns',
+        'in the solver world the arena slots are 8-byte address-only stand-ins (nobody, the cache included, may touch the bytes of a string buffer there); the native differential runs use real 1032-byte slots',
+        'PlatformSpecificMalloc (table of size classes, string buffers of the warning text) = static first-fit pools of the harness (6 x 16 bytes, 2 x 120 bytes)',
         'the warning is observed as one call of print() on the current test; its text (StringFromFormat through a vsnprintf stub rendering "W") is not checked',
         'an uncached buffer (> 256 bytes) released by its owner goes back to the underlying allocator with the size the owner names',
         'the oracle does not require WHEN released memory goes back to the underlying allocator, only that it has after clearCache / clearAll',
@@ -34,10 +36,13 @@ SPEC = {
         'defines': ['-DKF_C18_1'],
         'obligations': [
         ] + [sc(x) for x in ['AAAD', 'AADA', 'AADD', 'ADAD', 'ADDA', 'DADA', 'ADCA', 'AADC', 'AXAD', 'ADXA']] + [
-            sc(x, tier='thorough', timeout=1200) for x in ['AAAA', 'ADAA', 'ADDD', 'DAAD', 'DDAD', 'ACDA', 'AAXD', 'ADCD', 'ooo', 'oooo']] + [
-            sc(x, tier='thorough', timeout=1200) for x in ['AADAD', 'AADDA', 'ADADA', 'AAADD', 'ADCAD', 'AAXAD', 'ooCoo', 'ooXoo', 'ooooo']] + [
+            sc(x, tier='thorough', timeout=900) for x in ['AAAA', 'ADAA', 'ADDD', 'DAAD', 'DDAD', 'ACDA', 'AAXD', 'ADCD', 'ooo']] + [
+            sc(x, tier='thorough', timeout=2400) for x in ['AADAD', 'AADDA', 'ADADA', 'AAADD', 'ADCAD', 'AAXAD']] + [
+            # symbolic operation kinds: every request/release order of that length at once (measured 915 s / 843 s / 500 s)
+            sc(x, tier='thorough', timeout=4800) for x in ['oooo', 'ooCoo', 'ooXoo']] + [
+            # 'ooooo' (all 32 orders of 5 requests/releases at once): 9.9M variables, no verdict in 1200 s - not claimed; the 5-operation scripts above are
             ob('harness_same_class_2', bounds=S % (2, 2), lists=4),
-            ob('harness_same_class_3', bounds=S % (3, 3), lists=6, unwind=9, tier='thorough', timeout=1200),
+            ob('harness_same_class_3', bounds=S % (3, 3), lists=6, unwind=9, tier='thorough', timeout=1800),
         ],
     }, {
         'name': 'global', 'wrapper': 'w18g.cpp', 'harness': 'h18g.c', 'config': {},
